@@ -110,14 +110,17 @@ def hash_prepare_optimize(optimize):
 
 
 def hash_contraction(inputs, output, size_dict, optimize, **kwargs):
-    """Compute a hash key for the specified contraction."""
+    """Compute a hashable key for the specified contraction. The key is the
+    full description rather than its hash value, so that two different
+    contractions whose hashes happen to collide (e.g. integer indices ``-1``
+    and ``-2``) can never share a cache entry.
+    """
     optimize = hash_prepare_optimize(optimize)
     kwargs = frozenset(kwargs.items())
-    return (
-        hash((inputs, output, tuple(size_dict.items()), optimize, kwargs)),
-        # add this as a basic way to decrease collisions
-        len(inputs),
-    )
+    key = (inputs, output, tuple(size_dict.items()), optimize, kwargs)
+    # make sure unhashable arguments are reported here
+    hash(key)
+    return key
 
 
 def normalize_input(
